@@ -18,7 +18,7 @@ RULE = ('Complete enumeration of every cell name of GSC180, NANGATE, NANGATE_ZN,
         'implementation circuit and compared per output pin with a hand-written datasheet table. non-trivial: cell has a datasheet function '
         'with >= 2 inputs; distinct = distinct (library, cell). Part lookup: all 20 ordered pairs of libraries swept through pin_index / pin_is_output in '
         'one process (first, second, first again) against the declaration order of the own expansion; non-trivial: the two libraries share '
-        'a cell name with other pins or another pin order. Before the first cell is judged, each worker also looked pins up by position and by unknown names (directly and through netlists with positional connections), errors ignored. Part isolation: for every ordered pair of libraries and a sample of the cell names they share, the implementation circuit of the first library\'s cell is edited in place (gate kinds changed), the second library\'s cell is judged as in part cells, the edit is undone. An entry for which the module source holds no declaration text is judged against the port order of its own implementation.')
+        'a cell name with other pins or another pin order. Before the first cell is judged, each worker also looked pins up by position, by unknown names and by names that resemble a pin name (other case, padded, cut short) (directly and through netlists with positional connections), errors ignored. Part isolation: for every ordered pair of libraries and a sample of the cell names they share, the implementation circuit of the first library\'s cell is edited in place (gate kinds changed), the second library\'s cell is judged as in part cells, the edit is undone. An entry for which the module source holds no declaration text is judged against the port order of its own implementation.')
 ASSUMPTIONS = ['datasheet functions in vk/datasheet.py are written from the vendor naming conventions (Nangate A/B1/B2, SAED A1../IN1.., GSC A0/B0)',
                'implementation circuits are evaluated with kyupy LogicSim(m=2) (decided separately by C01)']
 
@@ -105,7 +105,9 @@ def other_work():
     for lib in sorted(lib_sources()):
         tlib = getattr(tl, lib)
         for j, name in enumerate(sorted(tlib.cells)):
-            for pin in (0, 1, 2, 'NOSUCHPIN', ''):
+            real = [p_ for p_ in list(tlib.cells[name][1]) if isinstance(p_, str)]
+            variants = [v for p_ in real for v in (p_.lower(), p_.upper(), p_.swapcase(), p_ + ' ', ' ' + p_, p_ + '_', p_[:-1]) if v not in real]
+            for pin in [0, 1, 2, 'NOSUCHPIN', ''] + (variants if j % 3 == 0 else variants[:2]):      # names that resemble a pin's (other case, padded, cut)
                 for fn in (tlib.pin_index, tlib.pin_is_output):
                     try:
                         fn(name, pin)
